@@ -390,3 +390,122 @@ Proof.
   intros Hn Hr. pose proof (line_plain sty sk [PNamed nm s]) as H. cbn [line_str flat_map piece_str piece_shown] in H.
   rewrite !app_nil_r in H. apply H. constructor; [|constructor]. split; [exact Hn|]. exists p. exact Hr.
 Qed.
+
+(* ---------- D. decorated and plain rendering in lockstep, backslashes allowed ---------- *)
+(* colorize_lockstep (MarkupLemmas) asks for a message without backslash; what is needed is less: no text before a tag
+   ends with a backslash (no tag is escaped) *)
+Lemma unescape_P (P : N -> Prop) : forall s, Forall P s -> Forall P (unescape s).
+Proof.
+  induction s as [|c|c d r IHr IHd] using list_ind2; intros H; [constructor|exact H|].
+  rewrite unescape_cons2. inversion H as [|? ? Hc Hdr]; subst. inversion Hdr as [|? ? Hd Hr]; subst.
+  destruct (N.eqb_spec c BSL), (N.eqb_spec d LT); subst; cbn [andb]; constructor; auto.
+Qed.
+Lemma double_bsl_P (P : N -> Prop) : forall s, Forall P s -> Forall P (double_bsl s).
+Proof.
+  induction s as [|c|c d r IHr IHd] using list_ind2; intros H; [constructor|exact H|].
+  rewrite double_bsl_cons2. inversion H as [|? ? Hc Hdr]; subst.
+  destruct (N.eqb_spec c BSL) as [->|]; cbn [andb]; [|constructor; auto].
+  destruct (N.eqb d LT); repeat constructor; auto.
+Qed.
+
+Lemma sgr_open_ends codes : ends_with_bsl (sgr_open codes) = false.
+Proof.
+  unfold sgr_open. change (ESC :: 91%N :: ?x ++ [109%N]) with ((ESC :: 91%N :: x) ++ [109%N]). now rewrite ends_app.
+Qed.
+Lemma sgr_open_no_bsl codes : no_bsl (sgr_open codes).
+Proof.
+  unfold sgr_open, no_bsl. constructor; [discriminate|]. constructor; [discriminate|].
+  apply Forall_app; split; [apply param_no_bsl, join_params|]. constructor; [discriminate|constructor].
+Qed.
+(* the wrapper and unescape commute: the wrapper has no backslash, and the closing sequence does not start with '<' *)
+Lemma unescape_apply st x : unescape (apply_style st x) = apply_style st (unescape x).
+Proof.
+  unfold apply_style, sgr_wrap. destruct (codes_of st) as [|c l]; [reflexivity|].
+  rewrite (unescape_app_l _ _ (sgr_open_ends (c :: l))), (unescape_id _ (sgr_open_no_bsl (c :: l))).
+  rewrite unescape_app_r; [reflexivity|]. cbn. discriminate.
+Qed.
+Lemma apply_style_ends st x : ends_with_bsl x = false -> ends_with_bsl (apply_style st x) = false.
+Proof.
+  intros Hx. unfold apply_style, sgr_wrap. destruct (codes_of st) as [|c l]; [exact Hx|]. rewrite app_assoc, ends_app. reflexivity.
+Qed.
+Lemma apply_cur_ends col sk x : ends_with_bsl x = false -> ends_with_bsl (apply_cur col sk x) = false.
+Proof. intros Hx. unfold apply_cur. destruct x; [reflexivity|]. destruct col; [apply apply_style_ends, Hx|exact Hx]. Qed.
+Lemma strips_unescape_cur sk x : no_esc x -> strips (unescape (apply_cur true sk x)) (unescape x).
+Proof.
+  intros Hx. unfold apply_cur. destruct x as [|c x]; [apply strips_nil|]. rewrite unescape_apply.
+  apply strips_apply, unescape_P, Hx.
+Qed.
+
+(* the two outputs so far: neither ends with a backslash, and after unescape they differ by SGR sequences only *)
+Definition lock (o1 o2 : str) : Prop :=
+  ends_with_bsl o1 = false /\ ends_with_bsl o2 = false /\ strips (unescape o1) (unescape o2).
+Lemma ends_app_false a b : ends_with_bsl a = false -> ends_with_bsl b = false -> ends_with_bsl (a ++ b) = false.
+Proof. intros Ha Hb. rewrite ends_app. destruct b; assumption. Qed.
+Lemma lock_nil : lock [] []. Proof. repeat split. Qed.
+Lemma lock_step sk o1 o2 x : lock o1 o2 -> no_esc x -> ends_with_bsl x = false -> lock (o1 ++ apply_cur true sk x) (o2 ++ x).
+Proof.
+  intros (E1 & E2 & S) Hx Ex. repeat split.
+  - apply ends_app_false; [exact E1|apply apply_cur_ends, Ex].
+  - apply ends_app_false; assumption.
+  - rewrite (unescape_app_l o1 _ E1), (unescape_app_l o2 _ E2). apply strips_app; [exact S|apply strips_unescape_cur, Hx].
+Qed.
+Lemma lock_same o1 o2 : lock o1 o2 -> lock (o1 ++ []) (o2 ++ []).
+Proof. now rewrite !app_nil_r. Qed.
+
+Definition seg_fine (sg : str * tag) : Prop :=
+  no_esc (fst sg) /\ ends_with_bsl (fst sg) = false /\ Forall good (raw_text (snd sg)).
+
+Lemma run_segs_lockstep_gen sty : forall segs sk o1 o2 first le,
+  Forall seg_fine segs -> lock o1 o2 ->
+  match run_segs sty true false first segs sk o1 le, run_segs sty false false first segs sk o2 le with
+  | Ok (s1, r1, l1), Ok (s2, r2, l2) => s1 = s2 /\ l1 = l2 /\ lock r1 r2 /\ l1 = match segs with [] => le | _ => false end
+  | Err e1, Err e2 => e1 = e2
+  | _, _ => False
+  end.
+Proof.
+  induction segs as [|[pre [raw cl nm]] r IH]; intros sk o1 o2 first le Hs Ho; cbn [run_segs].
+  - split; [reflexivity|]. split; [reflexivity|]. split; [exact Ho|reflexivity].
+  - inversion Hs as [|? ? (Hpre & Epre & Hraw) Hr]; subst. cbn [fst snd raw_text] in *.
+    rewrite esc_flag, Epre.
+    pose proof (do_tag_lockstep sty false raw cl nm sk) as HT.
+    destruct (do_tag sty true false (Tag raw cl nm) sk) as [[s1 p1]|e1], (do_tag sty false false (Tag raw cl nm) sk) as [[s2 p2]|e2];
+      cbn [bind fst snd]; try contradiction; [|exact HT].
+    destruct HT as [-> HT]. rewrite apply_cur_false.
+    assert (lock (o1 ++ apply_cur true sk pre ++ p1) (o2 ++ pre ++ p2)) as HL.
+    { rewrite !app_assoc. pose proof (lock_step sk o1 o2 pre Ho Hpre Epre) as H1.
+      destruct HT; [apply lock_same, H1|]. rewrite apply_cur_false.
+      apply lock_step; [exact H1|apply good_no_esc, Hraw|apply no_bsl_ends, good_no_bsl, Hraw]. }
+    specialize (IH s2 _ _ false false Hr HL).
+    destruct (run_segs sty true false false r s2 _ false) as [[[s1' r1] l1]|e1], (run_segs sty false false false r s2 _ false) as [[[s2' r2] l2]|e2];
+      try contradiction; auto.
+    destruct IH as (E1 & E2 & E3 & E4). split; [exact E1|]. split; [exact E2|]. split; [exact E3|].
+    rewrite E4. destruct r; reflexivity.
+Qed.
+
+Theorem colorize_lockstep_gen sty sk m :
+  ends_with_bsl m = false -> Forall seg_fine (fst (lex m)) -> Forall good (snd (lex m)) ->
+  match colorize sty true sk m, colorize sty false sk m with
+  | Ok (s1, o1), Ok (s2, o2) => s1 = s2 /\ strip_sgr o1 = o2
+  | Err e1, Err e2 => e1 = e2
+  | _, _ => False
+  end.
+Proof.
+  intros Em Hsegs Htail. unfold colorize. pose proof (lex_lossless m) as HL.
+  destruct (lex m) as [segs tail]. cbn [fst snd] in *.
+  destruct segs as [|sg segs'] eqn:ES.
+  - cbn [flat_map app] in HL. subst tail. split; [reflexivity|].
+    apply strips_sgr_strip, strips_text, unescape_P, good_no_esc, Htail.
+  - rewrite <- ES in *. rewrite Em.
+    pose proof (run_segs_lockstep_gen sty segs sk [] [] true false Hsegs lock_nil) as HR.
+    destruct (run_segs sty true false true segs sk [] false) as [[[s1 r1] l1]|e1],
+             (run_segs sty false false true segs sk [] false) as [[[s2 r2] l2]|e2]; try contradiction; cbn [bind]; [|exact HR].
+    destruct HR as (-> & -> & HK & El). rewrite El, ES.
+    set (t1 := removelast tail). set (t2 := match rev tail with c :: _ => [c] | [] => [] end).
+    assert (Forall good t1) as G1 by (apply removelast_P, Htail).
+    assert (Forall good t2) as G2 by (apply lastchar_P, Htail).
+    split; [reflexivity|]. rewrite !apply_cur_false.
+    assert (lock (r1 ++ apply_cur true s2 t1 ++ apply_cur true s2 t2) (r2 ++ t1 ++ t2)) as (_ & _ & HS).
+    { rewrite !app_assoc. apply lock_step; [apply lock_step; [exact HK| |]| |];
+        first [apply good_no_esc; assumption|apply no_bsl_ends, good_no_bsl; assumption]. }
+    apply strips_sgr_strip, HS.
+Qed.
